@@ -25,7 +25,8 @@ ASSUMPTIONS = ['floats as reals (the "to rounding" clause of the property is out
                'increments are >= 0 as in the property statement (negative increments are outside it)']
 OPS = ['insert_new', 'insert_existing', 'update_new', 'update_existing', 'remove', 'none']
 MUST_EVALUATE = {'quick': ['inv:max>=weights', 'inv:total=sum', 'inv:positions', 'accept-threshold', 'accept-prob-in-[0,1]',
-                           'zero-weight-never-selected', 'total_weight()=sum', 'proposal-uniform-over-items']}
+                           'zero-weight-never-selected', 'total_weight()=sum', 'proposal-uniform-over-items',
+                           'empty-set-total-is-zero', 'nonempty-total-positive', 'total-within-rounding-of-sum']}
 OPTS = {'quick': {'max_validate': 4, 'validate_every': 5}, 'thorough': {'max_validate': 4, 'validate_every': 50, 'cfg_timeout': 1500}}
 
 
@@ -56,7 +57,122 @@ def configs(tier):
                     for op2 in ops2:
                         out.append(dict(entry='_ListDict_', k=k, op=op, target=tgt, count=cnt, op2=op2,
                                         R=2 if (tier == 'quick' or k == 4) else 3, tags=[op, 'k%d' % k]))
+    out += float_configs(tier)
+    # long rejection runs: the proposal is scripted to the light candidate T times (its acceptance test is forced to fail by an
+    # assumption on the draw, so the run is ONE path), then to the heaviest one
+    for T in ((150,) if tier == 'quick' else (150, 1200)):
+        for k in (2, 3):
+            out.append(dict(entry='_ListDict_', k=k, op='none', target=None, count=1, op2=None, R=T + 5, long_run=T, tags=['long-rejection-run', 'k%d' % k]))
     return out
+
+
+# ---- rounding: the candidate set on IEEE doubles ----------------------------------------------------------------------------
+# histories: ('ins', item, weight symbol) = insert / replace, ('upd', item, symbol) = non-negative increment, ('rem', item)
+FLOAT_HISTORIES = {
+    'ins2-rem-fifo': [('ins', 0, 0), ('ins', 1, 1), ('rem', 0), ('rem', 1)],
+    'ins2-rem-lifo': [('ins', 0, 0), ('ins', 1, 1), ('rem', 1), ('rem', 0)],
+    'ins2-zero-weight-removal': [('ins', 0, 0), ('ins', 1, 1), ('ins0', 0), ('ins0', 1)],      # insert(item, 0) removes, as the simulators do
+    'upd2-rem': [('upd', 0, 0), ('upd', 1, 1), ('rem', 0), ('rem', 1)],
+    'upd-twice-rem': [('upd', 0, 0), ('upd', 0, 1), ('rem', 0)],
+    'replace-rem': [('ins', 0, 0), ('ins', 1, 1), ('ins', 0, 2), ('rem', 1), ('rem', 0)],
+    'ins3-rem': [('ins', 0, 0), ('ins', 1, 1), ('ins', 2, 2), ('rem', 0), ('rem', 1), ('rem', 2)],
+    'ins3-rem-rev': [('ins', 0, 0), ('ins', 1, 1), ('ins', 2, 2), ('rem', 2), ('rem', 1), ('rem', 0)],
+    'ins-rem-ins-rem': [('ins', 0, 0), ('ins', 1, 1), ('rem', 0), ('ins', 2, 2), ('rem', 1), ('rem', 2)],
+}
+
+
+def float_configs(tier):
+    out = []
+    bits = ['ins2-rem-fifo', 'ins2-rem-lifo', 'ins2-zero-weight-removal', 'upd2-rem']
+    if tier == 'thorough':
+        bits += ['upd-twice-rem', 'replace-rem', 'ins3-rem', 'ins-rem-ins-rem']
+    for name in bits:
+        out.append(dict(entry='_ListDict_', family='float-bits', history=name, tags=['float-bits', name]))
+    for name in FLOAT_HISTORIES:
+        if tier == 'quick' and name in ('ins3-rem-rev',):
+            continue
+        out.append(dict(entry='_ListDict_', family='float-std', history=name, tags=['float-std', name]))
+    return out
+
+
+W_LO, W_HI = 2.0 ** -10, 2.0 ** 10
+
+
+def run_float(h, cfg):
+    """the real _ListDict_ on doubles.  float-bits: weights are symbolic IEEE binary64 values (z3 FloatingPoint theory, bit-precise):
+    once the last candidate is gone the total rate must be EXACTLY 0 -- the simulators loop `while total_weight() > 0` and then
+    select from the set.  float-std: standard model fl(x op y) = (x op y)(1+d), |d| <= 2^-53 over the reals: while candidates
+    remain the total is positive and within 2*n*2^-53*(sum of everything ever added) of the exact sum of the current weights."""
+    import EoN.simulation as sim
+    from vlib import fpx
+    eng = symx.ENG
+    install_sim(RandomStub())
+    bits = cfg['family'] == 'float-bits'
+    hist = FLOAT_HISTORIES[cfg['history']]
+    nsym = 1 + max([op[2] for op in hist if len(op) == 3] + [0])
+    if bits:
+        ws = [fpx.symbol('w%d' % j, W_LO, W_HI) for j in range(nsym)]
+    else:
+        ws = [fpx.std_symbol('w%d' % j, W_LO, W_HI) for j in range(nsym)]
+        exact = [eng.real('w%d' % j, lo=W_LO, hi=W_HI) for j in range(nsym)]     # the same symbols, as exact reals
+    ld = sim._ListDict_(weighted=True)
+    cur = {}          # exact current weights (reals), float-std only
+    added = 0
+    n = 0
+    for op in hist:
+        n += 1
+        item = ('it', op[1])
+        if op[0] == 'ins':
+            st, v = h.call(ld.insert, item, ws[op[2]])
+            if not bits:
+                cur[item] = exact[op[2]]
+                added = added + exact[op[2]]
+        elif op[0] == 'ins0':
+            st, v = h.call(ld.insert, item, 0)
+            cur.pop(item, None)
+        elif op[0] == 'upd':
+            st, v = h.call(ld.update, item, ws[op[2]])
+            if not bits:
+                cur[item] = cur.get(item, 0) + exact[op[2]]
+                added = added + exact[op[2]]
+        else:
+            st, v = h.call(ld.remove, item)
+            cur.pop(item, None)
+        if st == 'exc':
+            h.fail('op-no-exception:' + type(v).__name__, {'exception': repr(v)[:200], 'op': list(op)})
+            return None
+        tot = ld.total_weight()
+        if len(ld) == 0:
+            if not bits:
+                continue      # exactness at the empty set is a statement about bits, not about error bounds: decided by float-bits
+            ok = h.require('empty-set-total-is-zero', fpx.EQ(tot, 0) if bits else EQ(tot, 0),
+                           {'after': [list(o) for o in hist[:n]], 'total_weight()': fpx.show(tot) if bits else show(tot)})
+            if not ok and eng.mode != 'sym':
+                _public_api_demo(h, ws)
+        elif not bits:
+            h.require('nonempty-total-positive', LT(0, tot), {'after': [list(o) for o in hist[:n]], 'total_weight()': show(tot)})
+            s_ = 0
+            for it in ld.items:
+                s_ = s_ + cur[it]
+            bound = added * (2 * n) * fpx.U
+            h.require('total-within-rounding-of-sum', AND(LE(tot - s_, bound), LE(s_ - tot, bound)),
+                      {'after': [list(o) for o in hist[:n]], 'total_weight()': show(tot), 'exact_sum': show(s_)})
+    return None
+
+
+def _public_api_demo(h, ws):
+    """(concrete replay only) the same rounding residue through a public entry point: two isolated nodes with rates w0, w1"""
+    import networkx as nx
+    import EoN
+    try:
+        G = nx.Graph()
+        G.add_nodes_from([0, 1])
+        rates = {0: float(ws[0]), 1: float(ws[1])}
+        st, v = h.call(EoN.Gillespie_complex_contagion, G, lambda G_, u, s, p: rates[u] if s[u] == 'A' else 0, lambda G_, u, s, p: 'B',
+                       lambda G_, u, s, p: [], {0: 'A', 1: 'A'}, ('A', 'B'), tmax=float('inf'))
+        symx.ENG.notes.append(('Gillespie_complex_contagion on two isolated nodes with these rates', repr(v)[:120] if st == 'exc' else 'returned normally (selection order differed)'))
+    except Exception as e:
+        symx.ENG.notes.append(('public api demo failed', repr(e)[:100]))
 
 
 def build(cfg, sim):
@@ -120,8 +236,11 @@ def apply_op(ld, op, tgt, a):
 def run_path(h, cfg):
     import EoN.simulation as sim
     eng = symx.ENG
+    if cfg.get('family') in ('float-bits', 'float-std'):
+        return run_float(h, cfg)
     stub = RandomStub(max_uniform_per_step=cfg.get('R', 2) + 1)
     install_sim(stub)
+    long_run = cfg.get('long_run')
     if cfg['k'] == 0 and cfg['op'] == 'none':
         ld = sim._ListDict_(weighted=True)      # base case of the induction: the empty set satisfies Inv
         ld.max_weight_count = 0
@@ -166,12 +285,27 @@ def run_path(h, cfg):
         eng.assume(pos)
     elif not pos:
         return out
+    if long_run:
+        # light = item 0 (weight w0 < M, possibly 0), heavy = the last item, whose weight is pinned to the maximum
+        light, heavy = items[0], items[-1]
+        if eng.mode == 'sym':
+            eng.assume(EQ(weights[heavy], ld.max_weight))
+            eng.assume(LT(weights[light], ld.max_weight))
+        thr_light = weights[light] / ld.max_weight
+        stub.script_choice = lambda n, seq: (list(seq).index(light) if n < long_run else list(seq).index(heavy)) if light in seq and heavy in seq else None
+        stub.script_u = lambda n, u: eng.assume(LE(thr_light, u)) if (n < long_run and eng.mode == 'sym') else None
     n0 = len(eng.log)
     st, chosen = h.call(ld.choose_random)
     if st == 'exc':
         h.fail('select-no-exception:' + type(chosen).__name__, {'exception': repr(chosen)[:200], 'weights': show([weights[i] for i in items]), 'max': show(ld.max_weight)})
         return out
     log = eng.log[n0:]
+    # protocol-independent part first: whatever the sampling scheme, the result is a current candidate of positive weight
+    if chosen not in weights:
+        h.fail('returns-a-current-candidate', {'chosen': str(chosen), 'items': [str(x) for x in items]})
+        return out
+    if not h.require('zero-weight-never-selected', LT(0, weights[chosen]), {'chosen': str(chosen), 'w': show(weights[chosen]), 'draws': len(log)}):
+        return out
     # the draw protocol: (choice over items, uniform u, cmp) repeated; last iteration accepted
     i = 0
     iters = []
